@@ -3,6 +3,6 @@
 D=$1; shift
 cd /verif
 for p in "$@"; do
-  VERIF_REPO=$D timeout 1500 bin/check $p quick > /tmp/mut.$p.out 2>&1; rc=$?
+  VERIF_REPO=$D VERIF_BUILD=${VERIF_BUILD:-build-mut} timeout 1500 bin/check $p quick > /tmp/mut.$p.out 2>&1; rc=$?
   echo "$p rc=$rc $(grep -E "^$p quick:" /tmp/mut.$p.out) viol=$(grep -c ^VIOLATION /tmp/mut.$p.out) rules: $(grep '^---- ' /tmp/mut.$p.out | awk '{print $3}' | sort | uniq -c | tr '\n' ' ')"
 done
